@@ -10,6 +10,7 @@ import Sftp.Driver.C11
 import Sftp.Driver.ClientConn
 import Sftp.Driver.Transfer
 import Sftp.Driver.C10
+import Sftp.Driver.C06
 /-
   `sftpmodel`: line-protocol driver for the executable models.
   One case per input line (`op arg…`), one output line per case.
@@ -19,7 +20,7 @@ open Sftp
 def allOps : List (String × (List String → String)) :=
   Sftp.Driver.C17.ops ++ Sftp.Driver.C09.ops ++ Sftp.Driver.C10Path.ops ++ Sftp.Driver.Codec.ops ++
   Sftp.Driver.C16.ops ++ Sftp.Driver.C15.ops ++ Sftp.Driver.C02.ops ++
-  Sftp.Driver.C18.ops ++ Sftp.Driver.C11.ops ++ Sftp.Driver.ClientConn.ops ++ Sftp.Driver.Transfer.ops ++ Sftp.Driver.C10.ops
+  Sftp.Driver.C18.ops ++ Sftp.Driver.C11.ops ++ Sftp.Driver.ClientConn.ops ++ Sftp.Driver.Transfer.ops ++ Sftp.Driver.C10.ops ++ Sftp.Driver.C06.ops
 
 def step (line : String) : String :=
   match (line.trimAscii.toString.splitOn " ").filter (· ≠ "") with
